@@ -243,6 +243,14 @@ def run_case(concepts, case, spec):
             arg.pop(0)
     for sub in asked[:12]:              # the same questions again, later, in another order
         call(ctx.neighbors, tuple(reversed(sub)))
+    if len(ctx.objects) <= 12 and len(ctx.properties) <= 12 and sl.n <= 200:
+        common.interference(concepts, ctx, lat, rng, 15)
+        for sub in asked[:6] + [[]]:
+            call(ctx.neighbors, list(sub))
+        with core.monitor_code():
+            common.drop_views()
+            judge_structure(lat, cap, 'after_interference')
+        COL.count('asked_again_after_interference')
     old = POOL.older(rng)
     if old is not None:
         octx = old
